@@ -887,7 +887,8 @@ func (p *parser) parseArrayTypeOrSliceLit(state int, slice ast.Expr) (expr ast.E
 		elt = p.tryType()
 		if elt == nil {
 			if len == nil {
-				log.Panicln("TODO: expect slice index")
+				p.errorExpected(rbrack, "slice index", 2)
+				len = &ast.BadExpr{From: rbrack, To: rbrack + 1}
 			}
 			if debugParseOutput {
 				log.Printf("ast.IndexExpr{X: %v, Index: %v}\n", slice, len)
@@ -2225,7 +2226,7 @@ func (p *parser) parseElementListOrComprehension() (list []ast.Expr, mce *ast.Co
 		list = append(list, p.parseElement())
 		if p.tok == token.FOR { // for k, v <- container
 			if len(list) != 1 {
-				log.Panicln("TODO: invalid comprehension: too may elements.")
+				p.error(p.pos, "invalid comprehension: too many elements")
 			}
 			phrases := p.parseForPhrases()
 			return nil, &ast.ComprehensionExpr{Elt: list[0], Fors: phrases}
@@ -3389,7 +3390,8 @@ func (p *parser) parseForPhraseStmtPart(lhs []ast.Expr) *ast.ForPhraseStmt {
 	case 2:
 		stmt.Key, stmt.Value = p.toIdent(lhs[0]), p.toIdent(lhs[1])
 	default:
-		log.Panicln("TODO: parseForPhraseStmt - too many variables, 1 or 2 is required")
+		p.errorExpected(lhs[0].Pos(), "1 or 2 variables", 2)
+		stmt.Key, stmt.Value = p.toIdent(lhs[0]), p.toIdent(lhs[1])
 	}
 	return stmt
 }
